@@ -106,8 +106,9 @@ func TestC11_P_Sizes(t *testing.T) {
 		}
 		if (kind == "file" || kind == "twice") && rapid.IntRange(0, 4).Draw(t, "rawEnvelope") == 0 {
 			// a link system whose raw codec frames the leaf blocks: sizes are about encoded lengths, not content lengths;
-			// the framing may be of fixed length or depend on the content (a uvarint length prefix)
-			st.RawEnvelope = rapid.SampledFrom([]int{1, 8, 100, RawEnvelopeUvarint, RawEnvelopeUvarint}).Draw(t, "envelopeLen")
+			// the framing may be of fixed length, depend on the content's length (a uvarint length prefix) or on the content itself
+			// (byte stuffing)
+			st.RawEnvelope = rapid.SampledFrom([]int{1, 8, 100, RawEnvelopeUvarint, RawEnvelopeUvarint, RawEnvelopeStuffed, RawEnvelopeStuffed}).Draw(t, "envelopeLen")
 			ev.Count("raw-envelope", 1)
 		}
 		var root cid.Cid
